@@ -2334,4 +2334,421 @@ func (n HourSeqNum) Dir() string {
 	return dir
 }
 `},
+	// extract methods (each neighbour scan a method whose init clause steps off the middle, fetch-or-missing method), early return <-> break to a single exit
+	{Name: "b-search-scan-helper-methods-single-exit", File: "replication/search.go",
+		Find: `func findInRange(ctx context.Context, s *stater, lower, upper *State, timestamp time.Time) (*State, error) {
+	// we do a binary search through the range to find the sequence number
+	for lower.SeqNum+1 < upper.SeqNum {
+		// could do better here
+		splitID := (lower.SeqNum + upper.SeqNum) / 2
+
+		split, err := s.State(ctx, splitID)
+		if err != nil && !NotFound(err) {
+			return nil, err
+		}
+
+		if split == nil {
+			// file missing, search the next towards lower
+			sID := splitID - 1
+
+			for split == nil && lower.SeqNum < sID {
+				split, err = s.State(ctx, sID)
+				if err != nil && !NotFound(err) {
+					return nil, err
+				}
+
+				sID--
+			}
+		}
+
+		if split == nil {
+			// still missing? search the next towards upper
+			sID := splitID + 1
+
+			for split == nil && sID < upper.SeqNum {
+				split, err = s.State(ctx, sID)
+				if err != nil && !NotFound(err) {
+					return nil, err
+				}
+
+				sID++
+			}
+		}
+
+		if split == nil {
+			// nothing between lower and upper, so upper is
+			// the first state at or after the timestamp.
+			return upper, nil
+		}
+
+		// set the new boundary
+		if timestamp.After(split.Timestamp) {
+			lower = split
+		} else {
+			upper = split
+		}
+	}
+
+	// timestamp is now between lower and upper, we want to return the upper.
+	return upper, nil
+}
+`,
+		Replace: `func findInRange(ctx context.Context, s *stater, lower, upper *State, timestamp time.Time) (*State, error) {
+	// we do a binary search through the range to find the sequence number
+	for lower.SeqNum+1 < upper.SeqNum {
+		// could do better here
+		splitID := (lower.SeqNum + upper.SeqNum) / 2
+
+		split, err := s.lookup(ctx, splitID)
+		if err != nil {
+			return nil, err
+		}
+
+		if split == nil {
+			// file missing, search the next towards lower
+			split, err = s.nearestBelow(ctx, splitID, lower)
+			if err != nil {
+				return nil, err
+			}
+		}
+
+		if split == nil {
+			// still missing? search the next towards upper
+			split, err = s.nearestAbove(ctx, splitID, upper)
+			if err != nil {
+				return nil, err
+			}
+		}
+
+		if split == nil {
+			// nothing between lower and upper, so upper is
+			// the first state at or after the timestamp.
+			break
+		}
+
+		// set the new boundary
+		if timestamp.After(split.Timestamp) {
+			lower = split
+		} else {
+			upper = split
+		}
+	}
+
+	// timestamp is now between lower and upper, we want to return the upper.
+	return upper, nil
+}
+
+// lookup fetches the state with the given sequence number; a missing state file is not an error here.
+func (s *stater) lookup(ctx context.Context, id uint64) (*State, error) {
+	state, err := s.State(ctx, id)
+	if err != nil && !NotFound(err) {
+		return nil, err
+	}
+
+	return state, nil
+}
+
+// nearestBelow returns the first state found going down from id-1, stopping short of the lower bound.
+func (s *stater) nearestBelow(ctx context.Context, id uint64, lower *State) (*State, error) {
+	for id--; lower.SeqNum < id; id-- {
+		state, err := s.lookup(ctx, id)
+		if err != nil || state != nil {
+			return state, err
+		}
+	}
+
+	return nil, nil
+}
+
+// nearestAbove returns the first state found going up from id+1, stopping short of the upper bound.
+func (s *stater) nearestAbove(ctx context.Context, id uint64, upper *State) (*State, error) {
+	for id++; id < upper.SeqNum; id++ {
+		state, err := s.lookup(ctx, id)
+		if err != nil || state != nil {
+			return state, err
+		}
+	}
+
+	return nil, nil
+}
+`},
+	// flag + value (the fetch-or-missing helper reports (state, found, err); the scans and the exhausted exit test the flag)
+	{Name: "b-search-lookup-found-flag", File: "replication/search.go",
+		Find: `func findInRange(ctx context.Context, s *stater, lower, upper *State, timestamp time.Time) (*State, error) {
+	// we do a binary search through the range to find the sequence number
+	for lower.SeqNum+1 < upper.SeqNum {
+		// could do better here
+		splitID := (lower.SeqNum + upper.SeqNum) / 2
+
+		split, err := s.State(ctx, splitID)
+		if err != nil && !NotFound(err) {
+			return nil, err
+		}
+
+		if split == nil {
+			// file missing, search the next towards lower
+			sID := splitID - 1
+
+			for split == nil && lower.SeqNum < sID {
+				split, err = s.State(ctx, sID)
+				if err != nil && !NotFound(err) {
+					return nil, err
+				}
+
+				sID--
+			}
+		}
+
+		if split == nil {
+			// still missing? search the next towards upper
+			sID := splitID + 1
+
+			for split == nil && sID < upper.SeqNum {
+				split, err = s.State(ctx, sID)
+				if err != nil && !NotFound(err) {
+					return nil, err
+				}
+
+				sID++
+			}
+		}
+
+		if split == nil {
+			// nothing between lower and upper, so upper is
+			// the first state at or after the timestamp.
+			return upper, nil
+		}
+
+		// set the new boundary
+		if timestamp.After(split.Timestamp) {
+			lower = split
+		} else {
+			upper = split
+		}
+	}
+
+	// timestamp is now between lower and upper, we want to return the upper.
+	return upper, nil
+}
+`,
+		Replace: `func findInRange(ctx context.Context, s *stater, lower, upper *State, timestamp time.Time) (*State, error) {
+	// we do a binary search through the range to find the sequence number
+	for lower.SeqNum+1 < upper.SeqNum {
+		// could do better here
+		splitID := (lower.SeqNum + upper.SeqNum) / 2
+
+		split, found, err := s.lookup(ctx, splitID)
+		if err != nil {
+			return nil, err
+		}
+
+		// file missing, search the next towards lower
+		for sID := splitID - 1; !found && lower.SeqNum < sID; sID-- {
+			split, found, err = s.lookup(ctx, sID)
+			if err != nil {
+				return nil, err
+			}
+		}
+
+		// still missing? search the next towards upper
+		for sID := splitID + 1; !found && sID < upper.SeqNum; sID++ {
+			split, found, err = s.lookup(ctx, sID)
+			if err != nil {
+				return nil, err
+			}
+		}
+
+		if !found {
+			// nothing between lower and upper, so upper is
+			// the first state at or after the timestamp.
+			return upper, nil
+		}
+
+		// set the new boundary
+		if timestamp.After(split.Timestamp) {
+			lower = split
+		} else {
+			upper = split
+		}
+	}
+
+	// timestamp is now between lower and upper, we want to return the upper.
+	return upper, nil
+}
+
+// lookup fetches the state with the given sequence number and reports whether there is one.
+func (s *stater) lookup(ctx context.Context, id uint64) (*State, bool, error) {
+	state, err := s.State(ctx, id)
+	if err != nil && !NotFound(err) {
+		return nil, false, err
+	}
+
+	return state, state != nil, nil
+}
+`},
+	// fmt.Sprintf <-> strconv + concatenation with manual zero padding (loop over a small count)
+	{Name: "b-path-strconv-padding", File: "replication/interval.go",
+		Find: `func (ds *Datasource) baseSeqURL(sn SeqNum) string {
+	n := sn.Uint64()
+	return fmt.Sprintf("%s/replication/%s/%03d/%03d/%03d",
+		ds.baseURL(),
+		sn.Dir(),
+		n/1000000,
+		(n%1000000)/1000,
+		n%1000)
+}
+`,
+		Replace: `func (ds *Datasource) baseSeqURL(sn SeqNum) string {
+	return ds.baseURL() + "/replication/" + sn.Dir() + "/" + sequencePath(sn.Uint64())
+}
+
+// sequencePath lays out a sequence number the way the planet server does: three levels,
+// each zero padded to at least three digits, e.g. 001/234/567.
+func sequencePath(n uint64) string {
+	return padded(n/1000000) + "/" + padded((n%1000000)/1000) + "/" + padded(n%1000)
+}
+
+func padded(n uint64) string {
+	s := strconv.FormatUint(n, 10)
+	for len(s) < 3 {
+		s = "0" + s
+	}
+
+	return s
+}
+`},
+	// error handling and results restructured to a single exit (result and error variables, labelled break)
+	{Name: "b-search-single-exit", File: "replication/search.go",
+		Find: `func findInRange(ctx context.Context, s *stater, lower, upper *State, timestamp time.Time) (*State, error) {
+	// we do a binary search through the range to find the sequence number
+	for lower.SeqNum+1 < upper.SeqNum {
+		// could do better here
+		splitID := (lower.SeqNum + upper.SeqNum) / 2
+
+		split, err := s.State(ctx, splitID)
+		if err != nil && !NotFound(err) {
+			return nil, err
+		}
+
+		if split == nil {
+			// file missing, search the next towards lower
+			sID := splitID - 1
+
+			for split == nil && lower.SeqNum < sID {
+				split, err = s.State(ctx, sID)
+				if err != nil && !NotFound(err) {
+					return nil, err
+				}
+
+				sID--
+			}
+		}
+
+		if split == nil {
+			// still missing? search the next towards upper
+			sID := splitID + 1
+
+			for split == nil && sID < upper.SeqNum {
+				split, err = s.State(ctx, sID)
+				if err != nil && !NotFound(err) {
+					return nil, err
+				}
+
+				sID++
+			}
+		}
+
+		if split == nil {
+			// nothing between lower and upper, so upper is
+			// the first state at or after the timestamp.
+			return upper, nil
+		}
+
+		// set the new boundary
+		if timestamp.After(split.Timestamp) {
+			lower = split
+		} else {
+			upper = split
+		}
+	}
+
+	// timestamp is now between lower and upper, we want to return the upper.
+	return upper, nil
+}
+`,
+		Replace: `func findInRange(ctx context.Context, s *stater, lower, upper *State, timestamp time.Time) (*State, error) {
+	var (
+		result *State
+		failed error
+	)
+
+	// we do a binary search through the range to find the sequence number
+search:
+	for lower.SeqNum+1 < upper.SeqNum {
+		// could do better here
+		splitID := (lower.SeqNum + upper.SeqNum) / 2
+
+		split, err := s.State(ctx, splitID)
+		if err != nil && !NotFound(err) {
+			failed = err
+			break
+		}
+
+		if split == nil {
+			// file missing, search the next towards lower
+			sID := splitID - 1
+
+			for split == nil && lower.SeqNum < sID {
+				split, err = s.State(ctx, sID)
+				if err != nil && !NotFound(err) {
+					failed = err
+					break search
+				}
+
+				sID--
+			}
+		}
+
+		if split == nil {
+			// still missing? search the next towards upper
+			sID := splitID + 1
+
+			for split == nil && sID < upper.SeqNum {
+				split, err = s.State(ctx, sID)
+				if err != nil && !NotFound(err) {
+					failed = err
+					break search
+				}
+
+				sID++
+			}
+		}
+
+		if split == nil {
+			// nothing between lower and upper, so upper is
+			// the first state at or after the timestamp.
+			result = upper
+			break
+		}
+
+		// set the new boundary
+		if timestamp.After(split.Timestamp) {
+			lower = split
+		} else {
+			upper = split
+		}
+	}
+
+	if failed != nil {
+		return nil, failed
+	}
+
+	if result == nil {
+		// timestamp is now between lower and upper, we want to return the upper.
+		result = upper
+	}
+
+	return result, nil
+}
+`},
 }
